@@ -967,6 +967,34 @@ class Driver:
         pred.unpredicted = True
         return {"kind": "load-foreign-secret", "path": path, "raised": exc, "label": None, "pred": pred, "before": before, "listed": False}
 
+    def _op_inner_mutate(self, op):
+        """Change in place a typed list / dict that is itself an ITEM of the typed list / dict at `path` (list of lists,
+        dict of lists, dict of dicts).  `op["x"]` is a valid new member for the inner container."""
+        cc, cfg = self.cc, self.cfg
+        path = self.concrete(op["path"])
+        if path is None:
+            return None
+        try:
+            outer = spec.get_path(cfg, path)
+        except Exception:
+            return None
+        if not isinstance(outer, (cc.ListProxy, cc.DictProxy)) or not len(outer):
+            return None
+        inner = [v for v in (outer.values() if isinstance(outer, dict) else outer) if isinstance(v, (cc.ListProxy, cc.DictProxy))]
+        if not inner:
+            return None
+        target = inner[op.get("which", 0) % len(inner)]
+        before = self.snapshot()
+        x = spec.realize(cc, op["x"])
+        if isinstance(target, list):
+            exc = self._run(lambda: target.append(x))
+        else:
+            exc = self._run(lambda: target.__setitem__(op.get("k", "zq"), x))
+        pred = Prediction(None, None)
+        pred.unpredicted = True
+        return {"kind": "inner-mutate", "path": path, "raised": exc, "label": None, "pred": pred, "before": before, "listed": False,
+                "inplace": True}
+
     def _op_cmdline_ns(self, op):
         """cmdline_args_override with a hand-made Namespace: known options, options a (dynamic or fixed) section
         does not declare, unknown top-level destinations.  The effect on the configuration is not predicted."""
